@@ -172,6 +172,7 @@ func checkC14(r *core.Run) {
 		})
 	}
 	nSend := 0
+	completers := map[*types.Func]bool{}
 	for _, f := range w.SortedFuncs() {
 		if w.IsTestFile(f.Decl.Pos()) || strings.Contains(f.Pkg.PkgPath, "/mock") {
 			continue
@@ -200,6 +201,9 @@ func checkC14(r *core.Run) {
 				return true
 			}
 			nSend++
+			if core.RecvNamed(f.Obj) == mf {
+				completers[f.Obj] = true // the future completes itself: its callers are the delivery sites
+			}
 			r.Fn(f)
 			r.Sites++
 			inSelectDefault := false
@@ -219,7 +223,17 @@ func checkC14(r *core.Run) {
 			return true
 		})
 	}
-	if nSend < 2 {
+	// delivery sites: direct sends, and calls of a method of the future that sends (single and merged delivery)
+	nDeliver := nSend
+	for fn := range completers {
+		nDeliver-- // the send inside the method is not a site of its own
+		for _, cs := range w.Callers(fn) {
+			if !w.IsTestFile(cs.Call.Pos()) {
+				nDeliver++
+			}
+		}
+	}
+	if nDeliver < 2 {
 		r.Bad("C14.nonblock", "sends on MessageFuture.Done", "", "expected the single and the merged delivery sites")
 	}
 	// ---- the function that stores the future and writes the package
@@ -540,7 +554,8 @@ func checkC14(r *core.Run) {
 		ninfo := nf.Pkg.TypesInfo
 		okOrder := false
 		sawResp := false
-		ast.Inspect(nf.Decl.Body, func(n ast.Node) bool {
+		var visit func(n ast.Node) bool
+		visit = func(n ast.Node) bool {
 			switch x := n.(type) {
 			case *ast.AssignStmt:
 				for _, l := range x.Lhs {
@@ -552,10 +567,15 @@ func checkC14(r *core.Run) {
 				if sawResp {
 					okOrder = true
 				}
+			case *ast.CallExpr:
+				// completion written as a method of the future (f.Complete(body)): its statements, in place
+				if g := w.Info(core.Callee(ninfo, x)); g != nil && core.RecvNamed(g.Obj) == mf && g.Decl.Body != nil {
+					ast.Inspect(g.Decl.Body, visit)
+				}
 			}
 			return true
-		})
-		_ = ninfo
+		}
+		ast.Inspect(nf.Decl.Body, visit)
 		r.Sites++
 		r.Check(okOrder, "C14.ids", core.ShortKey(nf.Obj)+" sets the response before signalling", w.Pos(nf.Decl.Pos()), "Response assigned before Done is signalled", "the waiter can be woken before the response is stored in its future")
 	}
@@ -684,6 +704,9 @@ func checkC14(r *core.Run) {
 					case "RemoveMessageFuture":
 						return []flow.Tag{"remove"}
 					}
+					if completers[callee.Origin()] {
+						return []flow.Tag{"notify"} // the future's own completing method
+					}
 					return nil
 				}, StmtTags: func(pkg *packages.Package, st ast.Stmt) []flow.Tag {
 					// the merged delivery completes the future by sending on its Done channel directly
@@ -756,7 +779,7 @@ func checkC14(r *core.Run) {
 			r.Bad("C14.timeout", "INSTANCE-FLOOR callbacks handed to the send", "", "fewer than the two callback hand-overs (sync, async) confirmed by hand")
 		}
 	}
-	r.Floor("C14.nonblock", 2)
+	r.Floor("C14.nonblock", 1) // one send when the future completes itself in a method; the delivery-site count above guards the rest
 	r.Floor("C14.table", 6)
 	r.Floor("C14.ids", 7)
 	r.Floor("C14.timeout", 1)
